@@ -12,6 +12,11 @@ selectors, unequal lengths); proofs are by induction over the Rust loops' recurs
 namespace ArrowModel.C06
 open Spec
 
+/-- denotation of either backing -/
+def RS.den : RS → List Bool
+  | .sels s => Spec.mask s
+  | .bits m => m
+
 /-! ## (1) the algebra equals set operations on positions -/
 
 /-- **`FromIterator<RowSelector>` / `From<Vec<RowSelector>>`** (dropping zero-length
@@ -185,6 +190,143 @@ theorem mask_backing_transforms (m : List Bool) (k : Nat) :
     trueIdx 0 (offsetMask m k) = (trueIdx 0 m).drop k ∧
     trueIdx 0 (trimMask m) = trueIdx 0 m :=
   ⟨splitOffMask_spec m k, limitMask_spec m k, offsetMask_positions m k, trimMask_positions m⟩
+
+
+/-! ## (1c) the cached selected-row count of the mask backing -/
+
+/-- **For every operation history the cached count equals the popcount of the mask.**
+Starting from any freshly constructed selection (`from_boolean_buffer`, `From<Vec<..>>`) and
+applying any sequence of `row_count`, `skipped_row_count`, `clone`, `trim`, `split_off`
+(keeping either half), `offset`, `limit`, `and_then`, `intersection`, `union`, the
+`MaskSelection::count` cache — as propagated by `split_off` (`with_count(head, …)`,
+`with_count(tail, total - head_count)`), `offset`, `limit`, `trim` — is never stale:
+`row_count()`, `skipped_row_count()` and `selects_any()` answer from the rows actually
+selected.  (This is what `RowGroupFrontier` relies on when it calls `row_count()` and then
+`split_off(row_group_rows)` for each row group.) -/
+theorem cached_count_is_popcount (start : RS) (ops : List Op) (s : CRS)
+    (h : runOps (CRS.ofRS start) ops = some s) :
+    s.rowCount.1 = s.toRS.rowCount ∧ s.skippedRowCount.1 = s.toRS.skippedRowCount ∧
+    s.selectsAny = s.toRS.selectsAny := by
+  have hok := runOps_cacheOk _ s ops (cacheOk_ofRS start) h
+  exact ⟨(cacheOk_rowCount s hok).2.1, (cacheOk_skipped s hok).2, cacheOk_selectsAny s hok⟩
+
+/-- each step also denotes what the cache-free model denotes (so the algebra theorems apply
+to the cached representation) -/
+theorem cached_splitOff_refines (s : CRS) (k : Nat) (h : CacheOk s) :
+    (s.splitOff k).1.toRS = (s.toRS.splitOff k).1 ∧ (s.splitOff k).2.toRS = (s.toRS.splitOff k).2 ∧
+    CacheOk (s.splitOff k).1 ∧ CacheOk (s.splitOff k).2 :=
+  let r := cacheOk_splitOff s k h; ⟨r.2.2.1, r.2.2.2, r.1, r.2.1⟩
+
+/-- non-vacuity: warm the cache, split a sparse mask at its popcount, look at the tail -/
+example : (runOps (CRS.ofRS (.bits [false, true, false, false, false, true, false]))
+    [.rowCount, .splitTail 2, .rowCount]).isSome = true := by decide
+
+
+/-! ## (1d) constructors and conversions -/
+
+/-- **`RowSelection::from_consecutive_ranges`**: whenever it does not panic ("out of order")
+the result denotes exactly the rows inside the given ranges over `total_rows` rows
+(`Spec.rangesBits`: gaps unselected, ranges selected, empty ranges ignored). -/
+theorem fromConsecutiveRanges_denotation (ranges : List (Nat × Nat)) (total : Nat) (out : List Sel)
+    (h : fromConsecutiveRanges ranges total = some out) :
+    mask out = rangesBits total ranges 0 := mask_fromConsecutiveRanges ranges total out h
+
+example : fromConsecutiveRanges [(5, 10), (10, 15), (17, 17), (18, 19)] 20 =
+    some [(5, true), (10, false), (3, true), (1, false), (1, true)] := by decide
+
+/-- **`mask_to_selectors` / `MaskRunIter` / `RowSelection::iter` on a mask**: the run-length
+form denotes the very mask it was built from — both backings denote the same positions. -/
+theorem maskToSelectors_denotation (m : List Bool) : mask (maskToSelectors m) = m :=
+  mask_maskToSelectors m
+
+/-- **`and_then_mask_from_selectors`** (mask `and_then` selectors): when it does not panic,
+`other` has exactly one row per selected row of the mask and the result is the composition. -/
+theorem andThenMaskFromSelectors_composes (m : List Bool) (other : List Sel) (out : List Bool)
+    (h : andThenMaskFromSelectors m other = some out) :
+    out = compose m (mask other) ∧ (mask other).length = Spec.countTrue m :=
+  andThenMaskFromSelectors_spec m other out h
+
+/-- hence every backing combination of `RowSelection::and_then` is composition of the denoted
+masks (selectors×mask goes through `MaskRunIter`, i.e. `maskToSelectors`). -/
+theorem RS_andThen_composes (a b out : RS) (h : a.andThen b = some out) :
+    out.den = compose a.den b.den := by
+  cases a with
+  | sels f =>
+    cases b with
+    | sels s =>
+      simp only [RS.andThen, Option.map_eq_some_iff] at h
+      obtain ⟨o, ho, rfl⟩ := h
+      exact andThen_composes f s o ho
+    | bits s =>
+      simp only [RS.andThen, Option.map_eq_some_iff] at h
+      obtain ⟨o, ho, rfl⟩ := h
+      have := andThen_composes f (maskToSelectors s) o ho
+      rwa [mask_maskToSelectors] at this
+  | bits m =>
+    cases b with
+    | sels s =>
+      simp only [RS.andThen, Option.map_eq_some_iff] at h
+      obtain ⟨o, ho, rfl⟩ := h
+      exact (andThenMaskFromSelectors_spec m s o ho).1
+    | bits s =>
+      simp only [RS.andThen, Option.map_eq_some_iff] at h
+      obtain ⟨o, ho, rfl⟩ := h
+      exact (andThenMasks_spec m s o ho).1
+
+
+/-- **`RowSelection::from_filters`** denotes the concatenation of the (null-free) filters. -/
+theorem fromFilters_denotation (fs : List (List Bool)) (out : List Sel)
+    (h : fromFilters fs = some out) : mask out = fs.flatten := mask_fromFilters fs out h
+
+example : fromFilters [[false, true, true], [true, false], []] =
+    some [(1, true), (3, false), (1, true)] := by decide
+
+/-! ## (4) predicates -/
+
+/-- **One predicate step of `with_predicate_options`** (selector backing, no limit): if the
+filters collected from the reader are the predicate evaluated at the currently selected rows
+in order (what `predLoop_flatten` + the reader-loop theorems provide), then
+`selection.and_then(from_filters(filters))` selects exactly
+`{p ∈ positions s | pred p}` and keeps the domain of `s` — nulls having been mapped to
+`false` by `prep_null_mask_filter` before. -/
+theorem predicate_step_filters_positions (s raw out : List Sel) (filters : List (List Bool))
+    (pred : Nat → Bool)
+    (hf : filters.flatten = (positions s).map pred)
+    (hraw : fromFilters filters = some raw) (hout : andThenSel s raw = some out) :
+    positions out = (positions s).filter pred ∧ domain out = domain s := by
+  have h1 := andThen_composes s raw out hout
+  have h2 := mask_fromFilters filters raw hraw
+  unfold positions domain at *
+  rw [h1, h2, hf]
+  refine ⟨trueIdx_compose_pred (mask s) 0 pred, ?_⟩
+  -- `compose` keeps the length of its first argument
+  have hlen : ∀ (a b : List Bool), (compose a b).length = a.length := by
+    intro a
+    induction a with
+    | nil => intro b; simp
+    | cons x a ih =>
+      intro b
+      cases x
+      · simp [compose, ih]
+      · cases b <;> simp [compose, ih]
+  exact hlen _ _
+
+/-- the filter-collection loop without a limit concatenates the predicate's values over the
+rows the reader delivered (all of them are processed) -/
+theorem predLoop_flatten (pred : Nat → Bool) (batches : List (List Nat)) :
+    (predLoop pred none batches 0 0).1.flatten = batches.flatten.map pred ∧
+    (predLoop pred none batches 0 0).2 = batches.flatten.length := by
+  have := predLoop_none pred batches 0 0
+  simpa using this
+
+/-- **`BooleanArray::take_n_true(n)`** (the early-termination truncation of the last
+predicate): same length, exactly the first `n` matches survive.
+`predicate_limit_partial`: that the truncated, padded filter chain of the push decoder
+followed by offset/limit yields the same rows as the untruncated one is not proved
+(correspondence + in-harness oracle only). -/
+theorem predicate_limit_partial (f : List Bool) (n : Nat) :
+    (takeNTrue f n).length = f.length ∧
+    trueIdx 0 (takeNTrue f n) = (trueIdx 0 f).take n := takeNTrue_spec f n 0
 
 /-! ## (5) offset / limit across row groups -/
 
